@@ -182,6 +182,32 @@ func (p *Pool) Release(ip net.IP) {
 	}
 }
 
+// Claim records ip as allocated to mac for a REQUEST that was not preceded by
+// an allocation in this pool (INIT-REBOOT, or a lease the server no longer
+// remembers). It succeeds if mac already holds ip or if ip is currently
+// available; it fails if ip is held by another client, is not one of the
+// pool's allocatable addresses (network, broadcast, gateway, reserved), or if
+// mac holds a different address.
+func (p *Pool) Claim(mac net.HardwareAddr, ip net.IP) bool {
+	p.mu.Lock()
+	defer p.mu.Unlock()
+
+	macStr := mac.String()
+	if cur, exists := p.allocated[macStr]; exists {
+		return cur.Equal(ip)
+	}
+
+	for i, avail := range p.available {
+		if avail.Equal(ip) {
+			p.available = append(p.available[:i], p.available[i+1:]...)
+			p.allocated[macStr] = avail
+			return true
+		}
+	}
+
+	return false
+}
+
 // Contains checks if an IP is within this pool
 func (p *Pool) Contains(ip net.IP) bool {
 	return p.Network.Contains(ip)
